@@ -293,6 +293,7 @@ uint64_t mv_hash(const MVal *m, uint64_t h) {
 // ---------------------------------------------------------------- structural walk
 bool (*mv_block_live)(const void *) = nullptr;
 bool mv_tolerate_dangling = false;
+bool mv_lenient_valueint = false;
 static bool dangling(const void *p) { return mv_block_live && p && !mv_block_live(p); }
 static std::string nodepath(const MVal *m) {
     std::string p;
@@ -344,7 +345,7 @@ key_done:
     if (m->type == T_NUMBER) {
         bool same = (n->valuedouble == m->num) || (n->valuedouble != n->valuedouble && m->num != m->num);
         if (!same) { char t[96]; snprintf(t, sizeof t, "valuedouble is %.17g, model says %.17g", n->valuedouble, m->num); return fail(t); }
-        if (m->num == m->num && n->valueint != saturate_int(m->num)) { char t[96]; snprintf(t, sizeof t, "valueint is %d, model says %d", n->valueint, saturate_int(m->num)); return fail(t); }
+        if (!mv_lenient_valueint && m->num == m->num && n->valueint != saturate_int(m->num)) { char t[96]; snprintf(t, sizeof t, "valueint is %d, model says %d", n->valueint, saturate_int(m->num)); return fail(t); }
     }
     if (m->refkind == R_NONE) {
         if (m->type == T_STRING || m->type == T_RAW) {
